@@ -7,7 +7,7 @@
 EXTENDS D42Substitute
 
 PlainScalars == { VNone, VBool(TRUE), VBool(FALSE), VInt(0), VInt(1), VInt(-5), VInt(INT_MAX),
-                  VFloat(0), VFloat(25), VFloat(100), VStr(<<>>), VStr(<<97, 98>>), VBytes(<<97>>),
+                  VFloat(0), VFloat(25), VFloat(100), VStr(<<>>), VStr(<<97, 98>>), VBytes(<<97>>), VBytes(<<>>),
                   VUuid(4, 0), VDatetime(0), VDate(0) }
 ScalarsSmall == { VNone, VBool(TRUE), VInt(1), VFloat(100), VStr(<<97, 98>>) }
 
@@ -18,6 +18,8 @@ ListsOf(E) == {VList(<<>>)} \cup {VList(<<a>>) : a \in E} \cup {VList(<<a, b>>) 
 DictsOf(E) == {VDict(<<>>)} \cup {VDict(<<KV(KStrA, a)>>) : a \in E}
               \cup {VDict(<<KV(KStrA, a), KV(KStrB, b)>>) : a, b \in E}
               \cup {VDict(<<KV(VInt(1), a), KV(VNone, a)>>) : a \in E}
+              \* keys whose text could mean something to a DSL or a formatter: "a?", "{}", "..."
+              \cup {VDict(<<KV(VStr(<<97, 63>>), a), KV(VStr(<<123, 125>>), a), KV(VStr(<<46, 46, 46>>), a)>>) : a \in E}
 
 Values1 == ListsOf(PlainScalars) \cup DictsOf(ScalarsSmall)
 Rep1V == { VList(<<VInt(1), VStr(<<97, 98>>)>>), VList(<<>>), VDict(<<KV(KStrA, VInt(1))>>),
